@@ -138,7 +138,7 @@ func genC03Program(r *R, ex map[string]bool) *Program {
 		return pick(r, maps)
 	}
 	seg := func() string {
-		switch r.N(28) {
+		switch r.N(30) {
 		case 0, 1:
 			return "{% for k, v in " + anyMap() + " %}{{ k }}={{ v|json_encode }}|{{ loop.index }};{% endfor %}"
 		case 2:
@@ -237,6 +237,12 @@ func genC03Program(r *R, ex map[string]bool) *Program {
 				"{{ d1|date(" + pick(r, []string{"'Y-m-d'", "'d/m/Y'", "'Y'"}) + ") }}{{ 'a,b;c'|split(" + pick(r, []string{"','", "';'"}) + ")|join('|') }}",
 				"{{ 'x%sy'|format(" + pick(r, []string{"'A'", "'b'"}) + ") }}{{ 'aXbxc'|replace(" + pick(r, []string{"'x', '-'", "'X', '-'"}) + ") }}",
 			})
+		case 28:
+			// inheritance, imports and includes in one render (nested contexts), reached through an include
+			return "{% include 'c3child' %}{% import 'lib3' as L3 %}{{ L3.ma(s1) }}{% include 'part0' with {'a': n1, 'b': s1} %}{% include 'c3child' %}"
+		case 29:
+			// typed slices through order-changing filters, looked at before and after
+			return "{{ sl|first }}{{ il|first }}{{ sl|sort|join(',') }}{{ il|sort|reverse|first }}{{ sl|last }}{{ sl|reverse|first }}{{ il|join(',') }}"
 		case 22:
 			// the same name bound twice in one construct: which binding wins must be decided by the source text
 			return pick(r, []string{
@@ -256,6 +262,8 @@ func genC03Program(r *R, ex map[string]bool) *Program {
 	p := &Program{Ctx: ctx}
 	p.Templates = append(p.Templates,
 		Tmpl{Name: "lib3", Segs: []string{"{% macro ma(x) %}A({{ x }}){% endmacro %}{% macro mb(x) %}B({{ x }}){% endmacro %}{% macro mc(x) %}C({{ x }}){% endmacro %}"}},
+		Tmpl{Name: "c3base", Segs: []string{"<base {% block b %}B{{ s1 }}{% endblock %}|{% block c %}C{% endblock %}>"}},
+		Tmpl{Name: "c3child", Segs: []string{"{% extends 'c3base' %}{% block b %}{% for k, v in m2 %}{{ k }}{% endfor %}{{ parent() }}{% endblock %}"}},
 		Tmpl{Name: "sbpart", Segs: []string{"<sb {{ n1 }}{{ m2|keys|json_encode }}>"}},
 		Tmpl{Name: "lib3b", Segs: []string{"{% macro ma(x) %}A2({{ x }}){% endmacro %}{% macro mb(x) %}B2({{ x }}){% endmacro %}"}})
 	part := Tmpl{Name: "part0", Segs: []string{"[{{ a|default('-') }}{{ b|default('-') }}{{ c|default('-') }}{{ d|default('-') }}]"}}
